@@ -967,6 +967,14 @@ func NewEnum(config EnumConfig) *Enum {
 	if gt.values, gt.err = gt.defineEnumValues(config.Values); gt.err != nil {
 		return gt
 	}
+	// Build the lookup tables now: building them lazily on first use is a
+	// data race when the first uses happen on several goroutines.
+	gt.valuesLookup = map[interface{}]*EnumValueDefinition{}
+	gt.nameLookup = map[string]*EnumValueDefinition{}
+	for _, value := range gt.values {
+		gt.valuesLookup[value.Value] = value
+		gt.nameLookup[value.Name] = value
+	}
 
 	return gt
 }
@@ -1064,7 +1072,7 @@ func (gt *Enum) Error() error {
 	return gt.err
 }
 func (gt *Enum) getValueLookup() map[interface{}]*EnumValueDefinition {
-	if len(gt.valuesLookup) > 0 {
+	if gt.valuesLookup != nil {
 		return gt.valuesLookup
 	}
 	valuesLookup := map[interface{}]*EnumValueDefinition{}
@@ -1076,7 +1084,7 @@ func (gt *Enum) getValueLookup() map[interface{}]*EnumValueDefinition {
 }
 
 func (gt *Enum) getNameLookup() map[string]*EnumValueDefinition {
-	if len(gt.nameLookup) > 0 {
+	if gt.nameLookup != nil {
 		return gt.nameLookup
 	}
 	nameLookup := map[string]*EnumValueDefinition{}
